@@ -115,6 +115,8 @@ pub fn evaluate(prop: &str, case: &Case, model: &Model, hist: &History) -> Verdi
         "C10" => crate::oracle2::c10(&a, &mut v),
         "C11" => crate::oracle2::c11(&a, &mut v),
         "C16" => crate::oracle2::c16(&a, &mut v),
+        "C17" => crate::oracle3::c17(&a, &mut v),
+        "C18" => crate::oracle3::c18(&a, &mut v),
         _ => {}
     }
     v
